@@ -166,7 +166,7 @@ def job_taint(family, shape, gemini, batch_size):
     return res
 
 
-PRIOR = ["fit-other", "predict", "predict_proba", "score", "set_params"]
+PRIOR = ["fit-other", "fit-same", "predict", "predict_proba", "score", "set_params"]
 
 
 def job_history(family, shape, gemini, batch_size, length):
@@ -176,7 +176,7 @@ def job_history(family, shape, gemini, batch_size, length):
     for seq in itertools.product(PRIOR, repeat=length):
         fitted, valid = False, True
         for s_ in seq:
-            if s_ == "fit-other":
+            if s_ in ("fit-other", "fit-same"):
                 fitted = True
             elif s_ in ("predict", "predict_proba", "score") and not fitted:
                 valid = False
@@ -202,6 +202,10 @@ def job_history(family, shape, gemini, batch_size, length):
                     env.steps.clear(); env.gem_calls.clear(); env.infer_calls.clear()
                     env.run_fit()
                     env.X, env.n = X_keep, n_keep
+                elif step == "fit-same":
+                    # the same data (same number of samples) fitted before: buffers sized by n survive into the next fit
+                    env.steps.clear(); env.gem_calls.clear(); env.infer_calls.clear()
+                    env.run_fit()
                 elif step == "predict":
                     env.final_infer = "real-all"
                     try:
@@ -507,7 +511,10 @@ def replay(rep, verbose=False):
     Xo = rng.normal(size=(n + 3, d)) * 2
     kw = dict(n_clusters=2, max_iter=3, random_state=7)
     if cm.BASE[family] != "cat":
-        kw["batch_size"] = rep.get("batch_size")
+        bs = rep.get("batch_size")
+        if bs is not None and bs > dm["n"]:
+            bs = n + (bs - dm["n"])       # the configuration "batch larger than the data" is kept for the replay's larger dataset
+        kw["batch_size"] = bs
     if cm.BASE[family] in ("mlp", "smlp"):
         kw["n_hidden_dim"] = 3
     if family not in ("RIM", "KernelRIM") and "MMD" not in family and "Wasserstein" not in family and family != "SparseLinearMI":
@@ -516,7 +523,7 @@ def replay(rep, verbose=False):
     def weights(m):
         return [np.array(w, copy=True) for w in m._get_weights()] + [np.array(m.labels_)]
     ref = weights(cls(**kw).fit(X))
-    seqs = [rep.get("seq")] if rep.get("seq") else [["fit-other"], ["fit-other", "predict"], ["fit-other", "score"], ["set_params"], ["fit-other", "fit-other"]]
+    seqs = [rep.get("seq")] if rep.get("seq") else [["fit-other"], ["fit-other", "predict"], ["fit-other", "score"], ["set_params"], ["fit-other", "fit-other"], ["fit-same"]]
     for seq in seqs:
         m = cls(**kw)
         Xc = X.copy()
@@ -525,6 +532,9 @@ def replay(rep, verbose=False):
         for s in seq:
             if s == "fit-other":
                 m.fit(Xo)
+                fitted = True
+            elif s == "fit-same":
+                m.fit(X)
                 fitted = True
             elif s in ("predict", "predict_proba") and fitted:
                 m.predict_proba(Xo)
@@ -557,6 +567,10 @@ def jobs(tier):
                         "kwargs": dict(family=fam, shape=((3, 3, 2) if fam == "SparseLinearModel" else (3, 3, 1, 2)), gemini=gem, batch_size=bs, hyper={"groups": [[0, 1]]}), "timeout": 280})
         if not q or fam in ("LinearModel", "KernelRIM", "MLPModel"):
             out.append({"name": f"history/{fam}/len2", "target": "checks.c12:job_history", "kwargs": dict(family=fam, shape=sh, gemini=gem, batch_size=bs, length=2), "timeout": 280 if q else 1800})
+    # a batch size larger than the data is legal: it must come out of fit / path as it went in
+    for fam, sh, gem in [("LinearModel", (3, 2, 2), "mmd_ova"), ("SparseLinearModel", (3, 2, 2), "mi"), ("Douglas", (3, 1, 1, 2), "mi")] + ([] if q else [("MLPModel", (3, 1, 2, 2), "mi"), ("RIM", (3, 2, 2), "mi")]):
+        out.append({"name": f"effects/{fam}/batch-larger-than-n", "target": "checks.c12:job_effects", "kwargs": dict(family=fam, shape=sh, gemini=gem, batch_size=5), "timeout": 280})
+        out.append({"name": f"history/{fam}/len1/batch-larger-than-n", "target": "checks.c12:job_history", "kwargs": dict(family=fam, shape=sh, gemini=gem, batch_size=4, length=1), "timeout": 280})
     hp = [("KernelRIM", (3, 2), {"base_kernel": "linear"}, {"base_kernel": "rbf", "base_kernel_params": {"gamma": 0.5}}, False),
           ("KernelRIM", (3, 2), {"base_kernel": "rbf", "base_kernel_params": {"gamma": 0.5}}, {"base_kernel": "rbf", "base_kernel_params": {"gamma": 2.0}}, False),
           ("KernelRIM", (3, 2), {"base_kernel": "linear"}, {"base_kernel": "linear"}, True),
